@@ -195,6 +195,11 @@ func (s *scriptTracker) Announce(ctx context.Context, req tracker.AnnounceReques
 	s.add(logEntry{Kind: leAnnounce, Seq: seq, Event: refEvent(req.Event), Want: req.NumWant, Left: req.Torrent.BytesLeft, IDOK: idok})
 	s.signal()
 	reply := func(code int) {
+		if code == roCanceled {
+			// not logged: the cancelled call returns concurrently with the announce that replaces it, so its
+			// position in the log would depend on goroutine scheduling (no oracle needs it)
+			return
+		}
 		e := logEntry{Kind: leReply, Seq: seq, Code: code, OK: code == roOK}
 		if code == roOK {
 			e.I, e.M = ans.I, ans.M
